@@ -20,6 +20,61 @@ pub trait SetUnderTest: Send + Sync + 'static {
     fn rem(&self, e: u32) -> bool;
     fn all(&self) -> Vec<u32>;
     fn name() -> &'static str;
+    /// do `ins`/`rem` report whether the element was absent/present?
+    fn reports_membership() -> bool { true }
+    /// plans start from an empty structure (the first insertion is the race)
+    fn always_starts_empty() -> bool { false }
+}
+
+/// The in-memory storage engine's backward-edge store: a map from key to a
+/// shared set. Element `e` lives under key `e % 4`, so the threads of a plan
+/// (whose element ranges start at multiples of 1000) make their i-th insertion
+/// into the same, possibly not yet existing, set.
+#[derive(Debug, Clone, Copy, PartialEq, Eq, Hash, qbice::Identifiable)]
+pub struct KosCol;
+impl qbice_storage::kv_database::KeyOfSetColumn for KosCol {
+    type Key = u32;
+    type Element = u32;
+}
+
+pub struct InMemoryKos(
+    qbice_storage::key_of_set_map::in_memory::InMemoryKeyOfSetMap<
+        KosCol,
+        Arc<DashSet<u32, fxhash::FxBuildHasher>>,
+    >,
+);
+
+impl SetUnderTest for InMemoryKos {
+    fn new_set() -> Self { Self(Default::default()) }
+    fn ins(&self, e: u32) -> bool {
+        use qbice_storage::key_of_set_map::KeyOfSetMap as _;
+        futures::executor::block_on(self.0.insert(
+            e % 4,
+            e,
+            &mut qbice_storage::write_batch::FauxWriteBatch,
+        ));
+        true
+    }
+    fn rem(&self, e: u32) -> bool {
+        use qbice_storage::key_of_set_map::KeyOfSetMap as _;
+        futures::executor::block_on(self.0.remove(
+            &(e % 4),
+            &e,
+            &mut qbice_storage::write_batch::FauxWriteBatch,
+        ));
+        true
+    }
+    fn all(&self) -> Vec<u32> {
+        use qbice_storage::key_of_set_map::KeyOfSetMap as _;
+        let mut v = Vec::new();
+        for k in 0..4u32 {
+            v.extend(futures::executor::block_on(self.0.get(&k)));
+        }
+        v
+    }
+    fn name() -> &'static str { "InMemoryKeyOfSetMap" }
+    fn reports_membership() -> bool { false }
+    fn always_starts_empty() -> bool { true }
 }
 
 fn qid(e: u32) -> QueryID {
@@ -92,7 +147,8 @@ impl SetPlan {
 pub fn run_plan<S: SetUnderTest>(plan: &SetPlan) -> CaseResult {
     let mut cr = CaseResult::default();
     let set = Arc::new(S::new_set());
-    for e in 0..plan.prefill {
+    let prefill = if S::always_starts_empty() { 0 } else { plan.prefill };
+    for e in 0..prefill {
         let _ = set.ins(e);
     }
     let barrier = Arc::new(Barrier::new(plan.threads.len()));
@@ -109,7 +165,7 @@ pub fn run_plan<S: SetUnderTest>(plan: &SetPlan) -> CaseResult {
                     SetOp::Ins(e) => {
                         let fresh = set.ins(e);
                         let expect = !mine.contains(&e);
-                        if fresh != expect && err.is_none() {
+                        if S::reports_membership() && fresh != expect && err.is_none() {
                             err = Some(format!(
                                 "insert({e}) returned {fresh}, the element was {} (only this thread touches it)",
                                 if expect { "absent" } else { "present" }
@@ -120,7 +176,7 @@ pub fn run_plan<S: SetUnderTest>(plan: &SetPlan) -> CaseResult {
                     SetOp::Rem(e) => {
                         let was = set.rem(e);
                         let expect = mine.contains(&e);
-                        if was != expect && err.is_none() {
+                        if S::reports_membership() && was != expect && err.is_none() {
                             err = Some(format!(
                                 "remove({e}) returned {was}, the element was {}",
                                 if expect { "present" } else { "absent" }
@@ -143,7 +199,7 @@ pub fn run_plan<S: SetUnderTest>(plan: &SetPlan) -> CaseResult {
             (mine, err)
         }));
     }
-    let mut expect: BTreeSet<u32> = (0..plan.prefill).collect();
+    let mut expect: BTreeSet<u32> = (0..prefill).collect();
     let mut first_err = None;
     for h in handles {
         match h.join() {
@@ -177,10 +233,24 @@ pub fn run_plan<S: SetUnderTest>(plan: &SetPlan) -> CaseResult {
         .sum();
     // non-trivial: the 32-element tier boundary is crossed while >= 2 threads
     // are active
-    cr.nontrivial =
-        plan.prefill <= 32 && plan.prefill as usize + total_ins > 32 && plan.threads.len() >= 2;
-    if cr.nontrivial {
-        cr.labels.push("tier_upgrade_during_concurrent_use");
+    if S::always_starts_empty() {
+        // non-trivial: at least two threads make a first insertion
+        cr.nontrivial = plan
+            .threads
+            .iter()
+            .filter(|o| o.iter().any(|x| matches!(x, SetOp::Ins(_))))
+            .count()
+            >= 2;
+        if cr.nontrivial {
+            cr.labels.push("concurrent_first_insertions_into_one_key");
+        }
+    } else {
+        cr.nontrivial = plan.prefill <= 32
+            && plan.prefill as usize + total_ins > 32
+            && plan.threads.len() >= 2;
+        if cr.nontrivial {
+            cr.labels.push("tier_upgrade_during_concurrent_use");
+        }
     }
     cr.counters = vec![("set_ops", plan.threads.iter().map(Vec::len).sum::<usize>() as u64)];
     if cr.nontrivial {
